@@ -130,7 +130,14 @@ func (s *set[ElementType]) replace(elements ds.ReadableSet[ElementType]) (applie
 	s.readableSet.mutex.Lock()
 	defer s.readableSet.mutex.Unlock()
 
-	return ds.NewSetMutations[ElementType](elements.ToSlice()...).WithDeletedElements(s.value.Replace(elements)), s.uniqueUpdateID.Next(), s.updateCallbacks.Values()
+	// only report the difference between the previous and the new elements: an element that is part of both sets was
+	// neither added nor deleted (subscribers that apply the mutations would otherwise lose it).
+	deletedElements := s.value.Replace(elements)
+	addedElements := s.value.Clone()
+	addedElements.DeleteAll(deletedElements)
+	deletedElements.DeleteAll(s.value)
+
+	return ds.NewSetMutations[ElementType]().WithAddedElements(addedElements).WithDeletedElements(deletedElements), s.uniqueUpdateID.Next(), s.updateCallbacks.Values()
 }
 
 // endregion ///////////////////////////////////////////////////////////////////////////////////////////////////////////
